@@ -40,19 +40,19 @@ def plan(tier, seed):
              "time_limit": TIME_LIMIT[tier]} for i in range(SHARDS)]
 
 
-def branch_conformance(sh, node, d, tree, path=()):
+def branch_conformance(sh, node, d, tree, path=(), tuples=True):
     """Every selected branch must be one the datum conforms to.  Returns a
     description of the first offending node or None."""
     node = deref(node)
     k = node.kind
     if k == "union":
         i, child = tree[1]
-        inner = d[1] if type(d) is tuple and len(d) == 2 else d
+        inner = d[1] if tuples and type(d) is tuple and len(d) == 2 else d
         sh.count("union_nodes_checked")
-        if not RC.conforms(node.branches[i], inner, loose=True):
+        if not RC.conforms(node.branches[i], inner, tuples=tuples, loose=True):
             return "at %r: branch %d (%r) selected for %s which does not conform to it" % (
                 path, i, node.branches[i], printable(inner, 120))
-        return branch_conformance(sh, node.branches[i], inner, child, path + (i,))
+        return branch_conformance(sh, node.branches[i], inner, child, path + (i,), tuples)
     if k == "record":
         for f, c in zip(node.fields, tree[1]):
             if isinstance(d, Mapping) and f.name in d:
@@ -61,18 +61,18 @@ def branch_conformance(sh, node, d, tree, path=()):
                 v = RC.default_datum(f.type, f.default)  # the datum the JSON default denotes
             else:
                 v = None
-            r = branch_conformance(sh, f.type, v, c, path + (f.name,))
+            r = branch_conformance(sh, f.type, v, c, path + (f.name,), tuples)
             if r:
                 return r
     elif k == "array":
         for n, (x, c) in enumerate(zip(list(d), tree[1][0])):
-            r = branch_conformance(sh, node.items, x, c, path + (n,))
+            r = branch_conformance(sh, node.items, x, c, path + (n,), tuples)
             if r:
                 return r
     elif k == "map":
         for key, c in tree[1][0]:
             if key in d:
-                r = branch_conformance(sh, node.values, d[key], c, path + (key,))
+                r = branch_conformance(sh, node.values, d[key], c, path + (key,), tuples)
                 if r:
                     return r
     return None
@@ -103,7 +103,7 @@ def scan_features(sh, tree):
 
 def one_case(sh, fa, case, parsed):
     js, node, datum = case["schema"], case["node"], case["datum"]
-    info = {"schema": js, "datum": datum, "parsed": parsed}
+    info = {"schema": js, "datum": datum, "parsed": parsed, "dtn": bool(case.get("dtn"))}
     res = c01.check_roundtrip(sh, fa, case, parsed, prop="C02")
     if res is None:
         return
@@ -121,7 +121,7 @@ def one_case(sh, fa, case, parsed):
                      "writer bytes differ from the specification encoding at offset %d: wrote %s, spec %s"
                      % (n, data[max(0, n - 4): n + 12].hex(), canon[max(0, n - 4): n + 12].hex()), info)
         return
-    bad = branch_conformance(sh, node, datum, tree)
+    bad = branch_conformance(sh, node, datum, tree, (), not case.get("dtn"))
     if bad:
         sh.violation("branch-not-conforming", bad, info)
         return
@@ -139,7 +139,7 @@ def run_shard(spec):
 
         info = pickle.loads(base64.b64decode(spec["replay"]["pickle"]))
         node, env = RS.build(info["schema"])
-        case = {"schema": info["schema"], "node": node, "env": env, "datum": info["datum"], "features": set()}
+        case = {"schema": info["schema"], "node": node, "env": env, "datum": info["datum"], "features": set(), "dtn": info.get("dtn", False)}
         sh.case(None)
         one_case(sh, fa, case, info.get("parsed", False))
         return sh.result()
@@ -152,7 +152,14 @@ def run_shard(spec):
     nb = len(cases)
     i = 0
     while i < spec["n"] + nb and not (i >= nb and sh.out_of_time()):
-        case = cases[i] if i < nb else gen_case(rng, c01.SOPTS, c01.DOPTS)
+        if i < nb:
+            case = cases[i]
+        elif rng.random() < 0.15:
+            case = gen_case(rng, c01.SOPTS, dict(c01.DOPTS, hints=0.0, no_tuples=True))
+            case["dtn"] = True  # tuple notation switched off
+            sh.count("tuple_notation_off_cases")
+        else:
+            case = gen_case(rng, c01.SOPTS, c01.DOPTS)
         i += 1
         feats = case["features"]
         parsed = rng.random() < 0.5
